@@ -14,6 +14,7 @@ from concurrent.futures import ThreadPoolExecutor
 from pathlib import Path
 
 VERIF = Path(__file__).resolve().parent.parent
+OUT = Path(os.environ["VERIF_OUT"]) if os.environ.get("VERIF_OUT") else VERIF   # evidence/replays root (scratch runs)
 REPO = Path(os.environ.get("VERIF_REPO", "/repo"))
 COQ = VERIF / "coq"
 BUILD = VERIF / "build"
@@ -324,7 +325,7 @@ def known_findings(prop: str) -> list[dict]:
 
 
 def write_replay(prop: str, payload: dict) -> str:
-    d = VERIF / "replays" / prop
+    d = OUT / "replays" / prop
     d.mkdir(parents=True, exist_ok=True)
     blob = json.dumps(payload, indent=1, sort_keys=True, default=str)
     h = hashlib.sha1(blob.encode()).hexdigest()[:12]
@@ -335,7 +336,7 @@ def write_replay(prop: str, payload: dict) -> str:
 
 def write_evidence(prop: str, tier: str, seed: int, coverage: dict, assumptions: list[str],
                    wall_s: float, violations: int):
-    d = VERIF / "evidence"
+    d = OUT / "evidence"
     d.mkdir(exist_ok=True)
     ev = {"property_id": prop, "tier": tier, "seed": seed, "level": "proof", "coverage": coverage,
           "assumptions": assumptions, "wall_s": round(wall_s, 2), "violations": violations}
